@@ -198,15 +198,21 @@ def rule_twopass(c, prog):
             if cnd.get("k") == "Binary" and cnd["op"] == "!=" and core.lit_value(cnd["r"]) == "null":
                 if any(x.get("k") == "MethodCall" and x["m"] == "add_referent_rewrite" for x in core.walk(n["t"])):
                     a = [x for x in core.walk(n["t"]) if x.get("k") == "MethodCall" and x["m"] == "add_referent_rewrite"][0]
-                    roles = [core.strip(z).get("name") for z in a["args"][:1]] + [core.place_root(a["args"][1])[0], core.strip(a["args"][2]).get("name")]
-                    ok = roles == ["id", "property_name", "ref_contents"]
+                    # (the instance being read: the Ref parameter, the property name parameter, the referent text just read)
+                    idl = common.param_lid_by_type(fn, lambda t: t.endswith("referent::Ref"))
+                    nml = common.param_lid_by_type(fn, lambda t: t.lstrip("&").strip() in ("str", "ustr::Ustr"))
+                    ok = idl is not None and nml is not None and core.strip(a["args"][0]).get("lid") == idl and common.derives_from(fn, a["args"][1], nml) \
+                        and common.local_from_call(fn, a["args"][2], "read_tag_contents") and common.derives_from(fn, cnd["l"], core.strip(a["args"][2]).get("lid"))
     if ok:
         c.ok(R, "reader:read_ref-registers")
     else:
         c.violation(R, "reader|read_ref", "read_ref no longer registers (instance id, property name, referent text) for every non-`null` value", fn.sp, instance="reader:read_ref-registers")
     fn = prog.fn("rbx_xml::types::shared_string::read_shared_string")
     a = [x for x in core.walk_fn(fn) if x.get("k") == "MethodCall" and x["m"] == "add_shared_string_rewrite"]
-    ok = len(a) == 1 and core.strip(a[0]["args"][0]).get("name") == "referent" and core.place_root(a[0]["args"][1])[0] == "property_name" and core.strip(a[0]["args"][2]).get("name") == "contents"
+    idl = common.param_lid_by_type(fn, lambda t: t.endswith("referent::Ref"))
+    nml = common.param_lid_by_type(fn, lambda t: t.lstrip("&").strip() in ("str", "ustr::Ustr"))
+    ok = len(a) == 1 and idl is not None and nml is not None and core.strip(a[0]["args"][0]).get("lid") == idl and common.derives_from(fn, a[0]["args"][1], nml) \
+        and common.local_from_call(fn, a[0]["args"][2], "read_tag_contents")
     # unconditional
     if ok and not any(n.get("k") == "If" and any(x is a[0] for x in core.walk(n)) for n in core.walk_fn(fn)):
         c.ok(R, "reader:read_shared_string-registers")
@@ -217,8 +223,13 @@ def rule_twopass(c, prog):
     calls_rv = [x for x in core.walk_fn(fn) if x.get("k") == "Call" and (core.callee(x) or "").endswith("types::read_value_xml")]
     roles = []
     for x in calls_rv:
-        r, p = core.place_root(x["args"][4])
-        roles.append((r, tuple(q for q in p if not q.startswith("."))))
+        arg = x["args"][4]
+        r, p = core.place_root(arg)
+        base = core.strip(arg)
+        while base.get("k") in ("Field", "MethodCall", "AddrOf", "Unary"):
+            base = core.strip(base.get("e") or base.get("recv"))
+        is_desc = "PropertyDescriptor" in ((base.get("ty") or "") + (base.get("aty") or ""))
+        roles.append(("descriptor" if is_desc else r, tuple(q for q in p if not q.startswith("."))))
     c.sample({"rule": R, "read_value_xml_property_name_args": roles})
     known = [r for r in roles if r[0] == "descriptor"]
     if len(calls_rv) >= 3 and known == [("descriptor", ("name",))]:
@@ -273,7 +284,7 @@ def rule_twopass(c, prog):
     for n in core.walk_fn(fn):
         if n.get("k") == "If":
             cnd = core.strip(n["c"])
-            if cnd.get("k") == "MethodCall" and cnd["m"] == "is_none" and core.strip(cnd["recv"]).get("name") == "value":
+            if cnd.get("k") == "MethodCall" and cnd["m"] == "is_none" and core.strip(cnd["recv"]).get("lid") == common.param_lid_by_type(fn, lambda t: t.endswith("referent::Ref")):
                 t_null = any(core.lit_value(x) == "null" for x in core.walk(n["t"]) if x.get("k") == "Lit")
                 f_map = "f" in n and any(x.get("k") == "MethodCall" and x["m"] == "map_id" for x in core.walk(n["f"]))
                 ok = t_null and f_map
@@ -297,15 +308,17 @@ def rule_name(c, prog):
     c.rule(R, "Name is written from instance.name through the String type and read back into the instance name; character data is written as CDATA exactly when it has leading or trailing whitespace (the case the whitespace-dropping reader would lose); read_characters joins every adjacent Characters/CData event")
     fn = prog.fn("rbx_xml::serializer_core::write_characters_or_cdata")
     ok = False
-    for n in core.walk_fn(fn):
-        if n.get("k") == "If" and core.strip(n["c"]).get("name") == "has_outer_whitespace":
-            t = [core.callee(x) for x in core.walk(n["t"]) if x.get("k") == "Call"]
-            f = [core.callee(x) for x in core.walk(n["f"]) if x.get("k") == "Call"] if "f" in n else []
-            ok = any(x and x.endswith("::cdata") for x in t) and any(x and x.endswith("::characters") for x in f)
     m = None
-    for st in core.walk_lets(fn.body):
-        if st["pat"].get("name") == "has_outer_whitespace":
-            m = core.strip(st["init"])
+    lets = {st["pat"].get("lid"): st["init"] for st in core.walk_lets(fn.body) if "init" in st and st["pat"].get("k") == "Binding"}
+    for n in core.walk_fn(fn):
+        if n.get("k") == "If" and "f" in n:
+            t = [core.callee(x) for x in core.walk(n["t"]) if x.get("k") == "Call"]
+            f = [core.callee(x) for x in core.walk(n["f"]) if x.get("k") == "Call"]
+            if any(x and x.endswith("::cdata") for x in t) and any(x and x.endswith("::characters") for x in f):
+                ok = True
+                cnd = core.strip(n["c"])
+                # the decision: the condition itself, or the let it names
+                m = core.strip(lets[cnd["lid"]]) if cnd.get("k") == "Path" and cnd.get("lid") in lets else cnd
     rows = {}
     if m and m.get("k") == "Match":
         for arm in m["arms"]:
